@@ -163,6 +163,7 @@ def install():
     np_fns.svd = svd
     np_fns.eig = eig
 
+    install_np_proxies()
     HANDLERS.update({
         np.linalg.solve: lapack.solve,
         np.linalg.inv: lapack.inv,
@@ -176,6 +177,31 @@ def install():
         np.fft.fft: lapack.fft,
         np.fft.ifft: lapack.ifft,
     })
+
+
+class _NpProxy:
+    """stand-in for the `np` global of cola modules that call NumPy directly on payloads (np.array / np.eye would leave the symbolic
+    domain through NumPy's C constructors): everything is forwarded to numpy except these two constructors"""
+    def __getattr__(s, name):
+        return getattr(np, name)
+
+    @staticmethod
+    def array(x, *a, **k):
+        if isinstance(x, SymArray):
+            return x.copy()
+        return np.array(x, *a, **k)
+
+    @staticmethod
+    def eye(*a, **k):
+        r = np.eye(*a, **k)
+        return lift(r) if MODE["symbolic"] else r
+
+
+def install_np_proxies():
+    import importlib
+    for mod in ("cola.linalg.eig.eigs", ):
+        m = importlib.import_module(mod)
+        m.np = _NpProxy()
 
 
 def _flatten(x):
